@@ -53,6 +53,17 @@ func registerMiscModels(ex *Exec) {
 			return ex.Ctx.App(name, SBV(64), x), nil, nil
 		}
 	}
+	fl2 := func(name string, f func(a, b float64) float64) ModelFn {
+		return func(ex *Exec, s *State, cc *ssa.CallCommon, a []Value) (Value, *Fork, error) {
+			x, y := a[0].(*Term), a[1].(*Term)
+			if x.IsConst() && y.IsConst() {
+				return ex.Ctx.BV(64, math.Float64bits(f(math.Float64frombits(x.U), math.Float64frombits(y.U)))), nil, nil
+			}
+			return ex.Ctx.App(name, SBV(64), x, y), nil, nil
+		}
+	}
+	m["math.Max"] = fl2("math_Max", math.Max)
+	m["math.Min"] = fl2("math_Min", math.Min)
 	m["math.Log"] = fl1("math_Log", math.Log)
 	m["math.Ceil"] = fl1("math_Ceil", math.Ceil)
 	m["math.Floor"] = fl1("math_Floor", math.Floor)
